@@ -30,7 +30,8 @@ def _val(draw, ty):
     if ty == FLOAT:
         return draw(st.integers(-64, 64)) / 8.0
     if ty == UINT:
-        return draw(st.one_of(st.integers(0, 40), st.sampled_from([0, 1, 65535, 65536, 2147483647])))
+        return draw(st.one_of(st.integers(0, 40), st.sampled_from([0, 1, 65535, 65536, 2147483647, 2147483648, 3000000000,
+                                                                         4294967295, 4294967294])))
     return draw(st.one_of(st.integers(-20, 20), st.integers(-20, 20), st.sampled_from(I32_EDGE)))
 
 
@@ -74,10 +75,13 @@ def subset_case(draw, n_inputs=4):
             ret = INT
             if draw(st.booleans()) and INT in names:
                 body_e = M.Bin(draw(st.sampled_from(["+", "*", "-"])), body_e, expr(INT, 1), ty=INT)
-        f = M.Func("w%d" % k, params, ret, M.Block([M.Return(body_e)]), True)
+        # helpers that are not exported may sit between the exported functions (never called: calls are outside the subset)
+        exported = (k == nf - 1 and not entries) or draw(st.integers(0, 9)) < 7
+        f = M.Func("w%d" % k, params, ret, M.Block([M.Return(body_e)]), exported)
         funcs.append(f)
-        entries.append(f.name)
-        inputs[f.name] = [({n: _val(draw, t) for t, n in params}, {}) for _ in range(n_inputs)]
+        if exported:
+            entries.append(f.name)
+            inputs[f.name] = [({n: _val(draw, t) for t, n in params}, {}) for _ in range(n_inputs)]
     return WasmCase(M.Program([], [], funcs), entries, inputs, "subset")
 
 
